@@ -13,7 +13,10 @@ meta = json.load(open(os.path.join(seed, 'meta.json')))
 props = sys.argv[2:] or [meta['property']]
 patch = os.path.abspath(os.path.join(seed, 'patch.diff'))
 assert subprocess.run(['git', '-C', '/repo', 'status', '--porcelain', '--untracked-files=no'], capture_output=True, text=True).stdout.strip() == '', '/repo not clean'
-subprocess.run(['git', '-C', '/repo', 'apply', patch], check=True)
+if subprocess.run(['git', '-C', '/repo', 'apply', patch]).returncode != 0:
+    # HEAD moved since the seed was made (fix: commits): fall back to a 3-way apply; keep only the working-tree change
+    subprocess.run(['git', '-C', '/repo', 'apply', '--3way', patch], check=True)
+    subprocess.run(['git', '-C', '/repo', 'reset', '-q'], check=True)
 results = {}
 try:
     for p in props:
